@@ -10,6 +10,9 @@ Numerical statement checks on the implementation run as support and as the falsi
   keep-alt-vd      correct_pva in 2D returns alt and VD bit-exact
   order            || state_diff(pva, correct_pva(pva, s x)) - T s x ||  falls >= 1.8 orders per decade of s
   restore          state_diff(correct_pva(perturb_pva(pva, s e), T_int s e), pva) falls >= 1.8 orders per decade
+  frames           the same first-order statement on time-indexed DataFrames in both operand orders (dense - sparse
+                   and sparse - dense): +-T x for all nine columns
+  flags            with_altitude passed as bool, numpy.bool_ and 0/1 (same mode, same number of states)
   both also on states whose roll / heading lies within a few error magnitudes of +-180 deg, with errors that carry
   the angle across the cut in either direction, on positions at the +-180 deg meridian, and with a first-order bound
   evaluated over 8 decades of magnitude, down to phi ~ 2e-10 rad / 1e-4 m / 1e-6 m/s (residual <= 1/4 of the applied
@@ -103,13 +106,24 @@ def _first_order(res, bound, scales):
     return bad
 
 
+FLAG_FORMS = ('bool', 'numpy', 'int')
+
+
+def flag(p):
+    """with_altitude as a caller may pass it: Python bool, numpy.bool_ or 0/1 -- all mean the same mode."""
+    wa = bool(p['with_altitude'])
+    return {'bool': wa, 'numpy': np.bool_(wa), 'int': int(wa)}[p.get('flag_form', 'bool')]
+
+
 def eval_case(kind, p):
     """Evaluate one statement on the implementation.  Returns (ok, detail dict)."""
     from pyins import transform, sim
     from pyins.error_model import InsErrorModel
     pva = pd.Series(p['pva'], index=COLS, dtype=float)
-    em = InsErrorModel(p['with_altitude'])
+    em = InsErrorModel(flag(p))
     n = em.n_states
+    if n != (9 if p['with_altitude'] else 7):
+        return False, dict(n_states=n)
     if kind == 'left-inverse':
         m = em.transform_to_internal(pva) @ em.transform_to_output(pva)
         err = float(np.abs(m - np.eye(n)).max())
@@ -154,6 +168,36 @@ def eval_case(kind, p):
         bad1 = _first_order(res, bound, SCALES + FINE_SCALES)
         return not bad and not bad1, dict(slopes_failed=bad, first_order_failed=bad1,
                                           residuals=[list(map(float, r)) for r in res])
+    if kind == 'frames':
+        # the same first-order statement on time-indexed frames, in both operand orders: a trajectory (sparse)
+        # against the corrected trajectory given at a finer time step (dense); compute_state_difference
+        # resamples the dense one and must return first - second whatever the order
+        rows = [pd.Series(q, index=COLS, dtype=float) for q in p['rows']]
+        xs = [np.array(v) * p['scale'] for v in p['xs']]
+        times = [10.0 + k for k in range(len(rows))]
+        sparse = pd.DataFrame([r_.values for r_ in rows], index=times, columns=COLS)
+        corr = [em.correct_pva(r_, x_) for r_, x_ in zip(rows, xs)]
+        dt, dr = [], []
+        for k, c in enumerate(corr):
+            dt.append(times[k]); dr.append(c.values)
+            if k + 1 < len(corr):
+                dt.append(times[k] + 0.5); dr.append(c.values)      # any in-between rows
+        dense = pd.DataFrame(dr, index=dt, columns=COLS)
+        Tx = np.array([em.transform_to_output(r_) @ x_ for r_, x_ in zip(rows, xs)])
+        bound = np.array([np.abs(em.transform_to_output(r_)) @ np.abs(x_) for r_, x_ in zip(rows, xs)])
+        out = {}
+        for name, d, sign in (('sparse-dense', transform.compute_state_difference(sparse, dense), 1.0),
+                              ('dense-sparse', transform.compute_state_difference(dense, sparse), -1.0)):
+            if list(d.columns) != ERR or list(d.index) != times:
+                return False, dict(order=name, columns=list(d.columns), index=list(d.index))
+            res = np.abs(d.values.astype(float) - sign * Tx)
+            bad = [(name, k, b, float(res[k][sl].max())) for k in range(len(rows))
+                   for b, sl in enumerate((slice(0, 3), slice(3, 6), slice(6, 9)))
+                   if float(res[k][sl].max()) > 0.25 * float(bound[k][sl].max()) + FLOOR1[sl].max()]
+            if bad:
+                return False, dict(failed=bad[:4], difference=d.values.tolist(), expected=(sign * Tx).tolist())
+            out[name] = float(res.max())
+        return True, out
     raise ValueError(kind)
 
 
@@ -227,6 +271,7 @@ def numeric_statements(r, n, seed_shift=5, n_cut=None):
         try:
             if k < n_cut:
                 p, tag = near_cut_case(rng, wa, k)
+                p['flag_form'] = FLAG_FORMS[k % 3]
             else:                                  # positions at the +-180 deg meridian
                 p, tag = near_meridian_case(rng, wa, k - n_cut)
                 dist['near_meridian'] = dist.get('near_meridian', 0) + 1
@@ -247,12 +292,23 @@ def numeric_statements(r, n, seed_shift=5, n_cut=None):
         pva = rand_pva(rng)
         wa = (i % 2 == 0)
         nst = 9 if wa else 7
-        p = dict(pva=pva, with_altitude=wa, x=rand_x(rng, nst), e=rand_e(rng, wa))
+        p = dict(pva=pva, with_altitude=wa, x=rand_x(rng, nst), e=rand_e(rng, wa), flag_form=FLAG_FORMS[(i // 2) % 3])
         dist['cases'] += 1
         dist['with_altitude' if wa else 'no_altitude'] += 1
         if abs(pva[0]) == 85.0 or abs(pva[7]) == 85.0:
             dist['special_lat_pitch'] += 1
         r.case(("pva", wa) + tuple(round(v, 6) for v in pva), sample=dict(p))
+        if i % 6 == 0:
+            # the frame form of the statement, both operand orders (dense - sparse and sparse - dense)
+            q = dict(with_altitude=wa, flag_form=p['flag_form'], pva=pva, scale=[1.0, 1e-3, 1e-6][(i // 6) % 3],
+                     rows=[pva] + [rand_pva(rng) for _ in range(3)], xs=[rand_x(rng, nst) for _ in range(4)])
+            try:
+                ok, det = eval_case('frames', q)
+            except Exception as ex:
+                ok, det = False, dict(exception=repr(ex))
+            if not ok:
+                fails.append(("C05 frames: state difference of trajectory frames is not +-T x on the implementation",
+                              dict(kind='frames', params=q, detail=det)))
         kinds = ['left-inverse', 'order', 'restore'] + ([] if wa else ['rows-2d', 'keep-alt-vd'])
         for kind in kinds:
             try:
